@@ -359,7 +359,7 @@ def run_model(tag, imports, case_type, run_fn, cases, shard=250, timeout=900, pr
             while pending and len(running) < NCPU:
                 fn = pending.pop(0)
                 cmd = ['bash', '-c', 'ulimit -s 2000000 2>/dev/null; '
-                       'exec timeout %d coqc -q -R %s Vakt -w -all %s' % (timeout, COQ, fn)]
+                       'exec timeout %d coqc -q -noglob -R %s Vakt -w -all %s' % (timeout, COQ, fn)]
                 pr = subprocess.Popen(cmd, cwd=work, stdout=subprocess.PIPE, stderr=subprocess.PIPE, text=True)
                 running.append((fn, pr))
             fn, pr = running.pop(0)
@@ -397,7 +397,7 @@ def _eval_cases(work, imports, prelude, case_type, run_fn, lits, timeout, name):
         f.write('\n  ; '.join(lits))
         f.write(' ].\n')
         f.write('Eval vm_compute in (map (%s) cases).\n' % run_fn)
-    cmd = ['bash', '-c', 'ulimit -s 2000000 2>/dev/null; exec timeout %d coqc -q -R %s Vakt -w -all %s' % (timeout, COQ, name)]
+    cmd = ['bash', '-c', 'ulimit -s 2000000 2>/dev/null; exec timeout %d coqc -q -noglob -R %s Vakt -w -all %s' % (timeout, COQ, name)]
     pr = subprocess.run(cmd, cwd=work, stdout=subprocess.PIPE, stderr=subprocess.PIPE, text=True)
     if pr.returncode == 124:
         return None
